@@ -8,7 +8,7 @@ package destination
 // ---------------------------------------------------------------- bufwriter.go (C05)
 // view(): every byte accepted and not yet lost = what the underlying writer took ++ what is buffered.
 //@ spec (b *Writer) view() bytes := b.wr.stream ++ b.buf[0:b.n][..]
-//@ pred (b *Writer) rep() := 0 <= b.n && b.n <= len(b.buf) && len(b.buf) > 0 && b.wr != nil
+//@ pred (b *Writer) rep() := 0 <= b.n && b.n <= len(b.buf) && len(b.buf) > 0 && b.wr != nil && b.durationOverflowFlush != nil
 //@
 //@ func (b *Writer) flush() error
 //@   property C05
